@@ -1,6 +1,8 @@
 (* Proofs for C12: ORDER BY + LIMIT never change which rows qualify; LIMIT keeps a prefix; on D12 the prefix is taken
    from a value-sorted permutation. *)
 From Coq Require Import List ZArith NArith Bool Permutation Sorted Lia.
+From Coq.Floats Require Import SpecFloat.
+From Coq.Strings Require Import Byte.
 Import ListNotations.
 From BWTable Require Import Cells Fmt StrOrder FmtProofs Sort SortProofs SortSpec SortSpecProofs Limit.
 Open Scope Z_scope.
@@ -56,31 +58,58 @@ Proof.
   - injection H as <-. exists []. rewrite app_nil_r. exact P.
 Qed.
 
+Section GenericD12.
+  Variable tm_ok : tim -> bool.
+  Variable tm_pair : tim -> tim -> bool.
+  Variable fl_ok : lit -> bool.
+  Hypothesis tm_law : forall a b, tm_ok a = true -> tm_ok b = true -> tm_pair a b = true ->
+    str_compare (trim_space (t_str a)) (trim_space (t_str b)) = Z.compare (t_ns a) (t_ns b).
+  Hypothesis fl_law : forall a b x y, fl_ok a = true -> fl_ok b = true -> l_val a = VFloat x -> l_val b = VFloat y ->
+    str_compare (trim_space (l_cmp a)) (trim_space (l_cmp b)) = match SFcompare x y with Some o => o | None => Eq end.
+  Let D12 := d12_gen tm_ok tm_pair fl_ok.
+
+  Theorem order_by_sorted_d12_gen : forall srt ks rows out, sorter_ok srt -> ks <> [] ->
+    D12 ks rows = true -> order_by_with srt (Some ks) rows = Ok out ->
+    Permutation rows out /\ spec_sorted ks out.
+  Proof.
+    intros srt ks rows out S Hne D H.
+    pose proof (order_by_with_perm srt (Some ks) rows out S H) as P. split; [exact P|].
+    unfold order_by_with, table_sort_with in H. destruct ks as [|k ks]; [congruence|].
+    destruct rows as [|r1 [|r2 rows]].
+    - injection H as <-. constructor.
+    - injection H as <-. constructor; constructor.
+    - destruct (forallb (has_keys (k :: ks)) (r1 :: r2 :: rows)); [|discriminate].
+      injection H as <-.
+      destruct (S (row_lt (k :: ks)) (r1 :: r2 :: rows)) as [P' N].
+      eapply (d12_no_inversion_spec_sorted tm_ok tm_pair fl_ok tm_law fl_law); [exact D | exact P' |].
+      apply N. apply row_lt_strict_weak. eapply d12_homogeneous. exact D.
+  Qed.
+
+  Theorem order_limit_sorted_prefix_d12_gen : forall srt ks n rows, sorter_ok srt -> ks <> [] -> 0 <= n ->
+    D12 ks rows = true ->
+    exists sorted,
+      Permutation rows sorted /\ spec_sorted ks sorted /\
+      order_limit_with srt (Some ks) (Some n) rows =
+        Ok (firstn (Z.to_nat (Z.min n (Z.of_nat (length rows)))) sorted).
+  Proof.
+    intros srt ks n rows S Hne Hn D.
+    assert (E : exists sorted, order_by_with srt (Some ks) rows = Ok sorted).
+    { unfold order_by_with, table_sort_with. destruct ks as [|k ks]; [congruence|].
+      destruct rows as [|r1 [|r2 rows]]; try (eexists; reflexivity).
+      rewrite (d12_has_keys _ _ _ _ _ D). eexists; reflexivity. }
+    destruct E as [sorted E]. exists sorted.
+    destruct (order_by_sorted_d12_gen srt ks rows sorted S Hne D E) as [P Sp].
+    split; [exact P|]. split; [exact Sp|].
+    unfold order_limit_with, bind. rewrite E. cbn. rewrite table_limit_ok by exact Hn.
+    rewrite (Permutation_length P). reflexivity.
+  Qed.
+End GenericD12.
+
+(* the oracle-free instance *)
 Theorem order_by_sorted_d12 : forall srt ks rows out, sorter_ok srt -> ks <> [] ->
   d12 ks rows = true -> order_by_with srt (Some ks) rows = Ok out ->
   Permutation rows out /\ spec_sorted ks out.
-Proof.
-  intros srt ks rows out S Hne D H.
-  pose proof (order_by_with_perm srt (Some ks) rows out S H) as P. split; [exact P|].
-  unfold order_by_with, table_sort_with in H. destruct ks as [|k ks]; [congruence|].
-  destruct rows as [|r1 [|r2 rows]].
-  - injection H as <-. constructor.
-  - injection H as <-. constructor; constructor.
-  - destruct (forallb (has_keys (k :: ks)) (r1 :: r2 :: rows)); [|discriminate].
-    injection H as <-.
-    destruct (S (row_lt (k :: ks)) (r1 :: r2 :: rows)) as [P' N].
-    eapply d12_no_inversion_spec_sorted; [exact D | exact P' |].
-    apply N. apply row_lt_strict_weak. apply d12_homogeneous. exact D.
-Qed.
-
-(* on D12 tables with all key bindings present ORDER BY cannot fail *)
-Lemma d12_has_keys : forall ks rows, d12 ks rows = true -> forallb (has_keys ks) rows = true.
-Proof.
-  intros ks rows D. unfold d12 in D. rewrite forallb_forall in *. intros r Hr.
-  specialize (D r Hr). apply andb_prop in D. destruct D as [D _].
-  unfold d12_row in D. unfold has_keys. rewrite forallb_forall in *. intros k Hk. specialize (D k Hk).
-  destruct (rget r (k_b k)); [reflexivity | discriminate].
-Qed.
+Proof. exact (order_by_sorted_d12_gen no_tim any_tim_pair no_lit no_tim_law no_lit_law). Qed.
 
 Theorem order_limit_sorted_prefix_d12 : forall srt ks n rows, sorter_ok srt -> ks <> [] -> 0 <= n ->
   d12 ks rows = true ->
@@ -88,17 +117,24 @@ Theorem order_limit_sorted_prefix_d12 : forall srt ks n rows, sorter_ok srt -> k
     Permutation rows sorted /\ spec_sorted ks sorted /\
     order_limit_with srt (Some ks) (Some n) rows =
       Ok (firstn (Z.to_nat (Z.min n (Z.of_nat (length rows)))) sorted).
+Proof. exact (order_limit_sorted_prefix_d12_gen no_tim any_tim_pair no_lit no_tim_law no_lit_law). Qed.
+
+(* the instance for given renderings of time anchors and float64 (oracles with the stated order laws) *)
+Theorem order_by_sorted_d12_oracles : forall (fmt_time : Z -> Z -> str) (fmt_float : spec_float -> str),
+  (forall off n1 n2, in_int64 n1 = true -> in_int64 n2 = true ->
+     length (fmt_time n1 off) = length (fmt_time n2 off) ->
+     str_compare (fmt_time n1 off) (fmt_time n2 off) = Z.compare n1 n2) ->
+  (forall n off, trim_space (fmt_time n off) = fmt_time n off) ->
+  (forall x y, sf_in_domain x = true -> sf_in_domain y = true ->
+     str_compare (fmt_float x) (fmt_float y) = match SFcompare x y with Some o => o | None => Eq end) ->
+  (forall x, trim_space (fmt_float x) = fmt_float x) ->
+  forall srt ks rows out, sorter_ok srt -> ks <> [] ->
+  d12_o fmt_time fmt_float ks rows = true -> order_by_with srt (Some ks) rows = Ok out ->
+  Permutation rows out /\ spec_sorted ks out.
 Proof.
-  intros srt ks n rows S Hne Hn D.
-  assert (E : exists sorted, order_by_with srt (Some ks) rows = Ok sorted).
-  { unfold order_by_with, table_sort_with. destruct ks as [|k ks]; [congruence|].
-    destruct rows as [|r1 [|r2 rows]]; try (eexists; reflexivity).
-    rewrite (d12_has_keys _ _ D). eexists; reflexivity. }
-  destruct E as [sorted E]. exists sorted.
-  destruct (order_by_sorted_d12 srt ks rows sorted S Hne D E) as [P Sp].
-  split; [exact P|]. split; [exact Sp|].
-  unfold order_limit_with, bind. rewrite E. cbn. rewrite table_limit_ok by exact Hn.
-  rewrite (Permutation_length P). reflexivity.
+  intros fmt_time fmt_float T1 T2 F1 F2.
+  exact (order_by_sorted_d12_gen (tm_ok_o fmt_time) tm_pair_o (fl_ok_o fmt_float)
+           (tm_law_o fmt_time T1 T2) (fl_law_o fmt_float F1 F2)).
 Qed.
 
 (* LIMIT token *)
@@ -270,4 +306,56 @@ Proof.
     destruct (Nat.le_ge_cases (Z.to_nat n) (length rows)).
     + rewrite Nat.min_l by lia. apply table_limit_firstn; lia.
     + rewrite Nat.min_r by lia. rewrite firstn_all. reflexivity.
+Qed.
+
+(* ---- the oracle laws are consistent and D12 with anchors is inhabited: a toy rendering (20 decimal digits of
+   ns + 2^63, any zone) satisfies them on int64 instants ------------------------------------------------------------- *)
+Lemma trim_space_no_space : forall s, (forall b, In b s -> is_space b = false) -> trim_space s = s.
+Proof.
+  intros s H. unfold trim_space.
+  assert (T : forall l, (forall b, In b l -> is_space b = false) -> trim_left l = l).
+  { intros [|x l] Hl; [reflexivity|]. cbn. rewrite (Hl x (or_introl eq_refl)). reflexivity. }
+  rewrite (T s H). rewrite T; [apply rev_involutive|]. intros b Hb. apply H. apply in_rev. exact Hb.
+Qed.
+
+Lemma digit_not_space : forall d, is_space (digit d) = false.
+Proof. intros d. unfold digit. destruct d as [|p|p]; try reflexivity; repeat (destruct p; try reflexivity). Qed.
+
+Lemma digits_fix_no_space : forall n v b, In b (digits_fix n v) -> is_space b = false.
+Proof.
+  induction n as [|n IH]; intros v b H; cbn in H; [contradiction|].
+  apply in_app_or in H. destruct H as [H|[<-|[]]]; [eapply IH; exact H | apply digit_not_space].
+Qed.
+
+Definition toy_fmt_time (n off : Z) : str := digits_fix 20 (n + two63).
+
+Lemma toy_fmt_time_laws :
+  (forall off n1 n2, in_int64 n1 = true -> in_int64 n2 = true ->
+     length (toy_fmt_time n1 off) = length (toy_fmt_time n2 off) ->
+     str_compare (toy_fmt_time n1 off) (toy_fmt_time n2 off) = Z.compare n1 n2) /\
+  (forall n off, trim_space (toy_fmt_time n off) = toy_fmt_time n off).
+Proof.
+  split.
+  - intros off n1 n2 R1 R2 _. unfold toy_fmt_time, in_int64 in *.
+    apply andb_prop in R1, R2. destruct R1 as [A1 B1], R2 as [A2 B2].
+    apply Z.leb_le in A1, A2. apply Z.ltb_lt in B1, B2. unfold two63 in *.
+    rewrite digits_fix_compare by lia.
+    change (10 ^ Z.of_nat 20) with 100000000000000000000.
+    rewrite !Z.mod_small by lia.
+    destruct (Z.compare_spec n1 n2); [apply Z.compare_eq_iff | apply Z.compare_lt_iff | apply Z.compare_gt_iff]; lia.
+  - intros n off. apply trim_space_no_space. apply digits_fix_no_space.
+Qed.
+
+(* time anchors only (float64 stays outside): needs the RFC3339Nano law alone *)
+Theorem order_by_sorted_d12_time : forall (fmt_time : Z -> Z -> str),
+  (forall off n1 n2, in_int64 n1 = true -> in_int64 n2 = true ->
+     length (fmt_time n1 off) = length (fmt_time n2 off) ->
+     str_compare (fmt_time n1 off) (fmt_time n2 off) = Z.compare n1 n2) ->
+  (forall n off, trim_space (fmt_time n off) = fmt_time n off) ->
+  forall srt ks rows out, sorter_ok srt -> ks <> [] ->
+  d12_gen (tm_ok_o fmt_time) tm_pair_o no_lit ks rows = true -> order_by_with srt (Some ks) rows = Ok out ->
+  Permutation rows out /\ spec_sorted ks out.
+Proof.
+  intros fmt_time T1 T2.
+  exact (order_by_sorted_d12_gen (tm_ok_o fmt_time) tm_pair_o no_lit (tm_law_o fmt_time T1 T2) no_lit_law).
 Qed.
